@@ -382,3 +382,49 @@ def lossy_float_ops(f, aliases):
             if low(sp):
                 out.append((n, 'format specification %r' % sp))
     return out
+
+
+def stale_derived_attributes(model, rels):
+    """Attributes a constructor derives from a parameter that one of the object's set_* methods re-configures later (the compilers call set_size_range /
+    set_restricted_to_range again on the copy of a referenced type when the reference carries its own constraint), assigned in __init__ only: after the second call the
+    attribute still describes the first constraint.  -> (number of constructors that hand parameters to a setter, [(class, __init__, assignment, attr, params, setter name)])"""
+    import ast as _ast
+    from . import flow as _flow
+    from .model import walk_no_nested as _wnn
+    n = 0
+    out = []
+    for rel in rels:
+        for c in model.mod(rel).classes.values():
+            ini = c.methods.get('__init__')
+            if ini is None:
+                continue
+            params = set(_flow.param_names(ini)) - {'self'}
+            reconf = {}
+            for x in _wnn(ini):
+                if isinstance(x, _ast.Call) and isinstance(x.func, _ast.Attribute) and isinstance(x.func.value, _ast.Name) and x.func.value.id == 'self' and x.func.attr.startswith('set_'):
+                    for a in list(x.args) + [k.value for k in x.keywords]:
+                        if isinstance(a, _ast.Name) and a.id in params:
+                            reconf.setdefault(a.id, x.func.attr)
+            if not reconf:
+                continue
+            n += 1
+            for a in _wnn(ini):
+                if not (isinstance(a, (_ast.Assign, _ast.AugAssign))):
+                    continue
+                tgts = a.targets if isinstance(a, _ast.Assign) else [a.target]
+                for t in tgts:
+                    if not (isinstance(t, _ast.Attribute) and isinstance(t.value, _ast.Name) and t.value.id == 'self'):
+                        continue
+                    used = sorted({x.id for x in _ast.walk(a.value) if isinstance(x, _ast.Name)} & set(reconf))
+                    if not used:
+                        continue
+                    # fine when the setter that receives the parameter assigns the attribute as well
+                    ok = False
+                    for u in used:
+                        r = c.find_method(reconf[u])
+                        if r and any(isinstance(y, _ast.Attribute) and isinstance(y.ctx, _ast.Store) and isinstance(y.value, _ast.Name) and y.value.id == 'self' and y.attr == t.attr
+                                     for y in _wnn(r[1])):
+                            ok = True
+                    if not ok:
+                        out.append((c, ini, a, t.attr, used, reconf[used[0]]))
+    return n, out
